@@ -6,7 +6,6 @@ From OAP Require Import Base.Bytes Base.Res Model.Life.
 Import ListNotations.
 Local Open Scope N_scope.
 
-Definition closedb (c : conn) : bool := negb (cn_open c).
 Definition full (c : conn) : bool := cn_reader c && cn_writer c && cn_disp c.
 
 Record LInv (s : lstate) : Prop := {
@@ -95,7 +94,7 @@ Qed.
 
 Theorem linv_step s a : LInv s -> lstep s a <> Panic /\ (forall s', lstep s a = Ok s' -> LInv s').
 Proof.
-  intros I. pose proof I as I0. inv_fields I. destruct a as [| | |ok|ok| |i g]; cbn [lstep].
+  intros I. pose proof I as I0. inv_fields I. destruct a as [| | |ok|ok| | |i g]; cbn [lstep].
   - (* user close *)
     split.
     + unfold do_close, close_chan. destruct (l_once s) eqn:O; [discriminate|]. rewrite <- I5. cbn. discriminate.
@@ -108,8 +107,10 @@ Proof.
       - intros _. now apply close_last_all.
       - intros _. now apply close_last_all.
       - intros c Hc Ho. apply I8; [now apply close_last_in|exact Ho]. }
-    destruct (l_closed s) eqn:C; (split; [discriminate|]); intros s' E; inversion E; subst; [exact G|].
-    destruct G as [G1 G2 G3 G4 G5 G6 G7 G8]. split; cbn in *; auto.
+    destruct (none_open s); [split; [discriminate|intros s' E; inversion E; subst; exact I0]|].
+    destruct (l_closed s) eqn:C; [split; [discriminate|]; intros s' E; inversion E; subst; exact G|].
+    destruct (l_recovering s); (split; [discriminate|]); intros s' E; inversion E; subst;
+      destruct G as [G1 G2 G3 G4 G5 G6 G7 G8]; split; cbn in *; auto.
   - (* retry loop head *)
     destruct (l_recovering s); [|split; [discriminate|intros s' E; inversion E; subst; exact I0]].
     destruct (l_phase s) eqn:P; try (split; [discriminate|intros s' E; inversion E; subst; exact I0]).
@@ -142,6 +143,9 @@ Proof.
       all: try (intros _; now apply close_last_all).
       all: try (intros c Hc Ho; apply I8; [now apply close_last_in|exact Ho]).
     + split; [discriminate|]. intros s' E; inversion E; subst; clear E. split; fin.
+  - (* finish *)
+    destruct (l_phase s) eqn:P; try (split; [discriminate|intros s' E; inversion E; subst; exact I0]).
+    destruct (l_pending s && negb (l_closed s)); (split; [discriminate|]); intros s' E; inversion E; subst; clear E; split; fin.
   - (* Do *)
     destruct (rev (l_conns s)) as [|c r] eqn:R.
     + exfalso. apply I1. apply (f_equal (@rev conn)) in R. now rewrite rev_involutive in R.
@@ -224,4 +228,96 @@ Proof.
   destruct (cn_reader c) eqn:R; [exists GReader; unfold alive; cbn; rewrite R; destruct (cn_writer c), (cn_disp c); reflexivity|].
   destruct (cn_writer c) eqn:W; [exists GWriter; unfold alive; cbn; rewrite R, W; destruct (cn_disp c); reflexivity|].
   destruct (cn_disp c) eqn:D; [exists GDisp; unfold alive; cbn; rewrite R, W, D; reflexivity|discriminate].
+Qed.
+
+(* ---- C08: no loss of the connection goes unnoticed ----
+   Second invariant: whenever the client is not closed and no connection is open, a recovery is running (or is about
+   to start over); while an attempt is past its dial, a loss of the new connection is either still visible
+   (connection open) or recorded as pending. *)
+Record LCov (s : lstate) : Prop := {
+  lc_pend : (l_phase s = PhAuthing \/ l_phase s = PhFinishing) -> l_closed s = false -> l_pending s = false -> none_open s = false;
+  lc_cover : l_closed s = false -> none_open s = true -> l_recovering s = true;
+  lc_phase : l_phase s <> PhIdle -> l_recovering s = true }.
+
+Lemma none_open_snoc l : forallb closedb (l ++ [mkConn true true true true]) = false.
+Proof. rewrite forallb_app. cbn. apply andb_false_r. Qed.
+
+Lemma lcov_init max : LCov (l0 max).
+Proof. split; cbn; intros; try discriminate; try congruence; try (destruct H; discriminate). Qed.
+
+Lemma do_close_closed s s' : do_close s = Ok s' -> LInv s -> l_closed s' = true.
+Proof. intros E I. now destruct (do_close_inv s s' I E) as (_ & C & _). Qed.
+
+Ltac cov_fin := cbn; unfold none_open in *; cbn; intros; try congruence; auto;
+  try match goal with H : _ \/ _ |- _ => destruct H; congruence end.
+
+Lemma lcov_step s a s' : LInv s -> LCov s -> lstep s a = Ok s' -> LCov s'.
+Proof.
+  intros I [P C Q] E. pose proof I as I0. inv_fields I. destruct a as [| | |ok|ok| | |i g]; cbn [lstep] in E.
+  - (* user close *)
+    destruct (do_close_inv s s' I0 E) as (_ & Cl & R & Ph & _). split; intros; try congruence. rewrite R. apply Q. congruence.
+  - (* conn lost *)
+    destruct (none_open s) eqn:N; [inversion E; subst; split; rewrite ?N; assumption|].
+    destruct (l_closed s) eqn:Cl; [inversion E; subst; split; cov_fin|].
+    assert (A : forallb closedb (close_last (l_conns s)) = true) by now apply close_last_all.
+    destruct (l_recovering s) eqn:R; inversion E; subst; clear E; split; cov_fin.
+    (* not recovering: the phase is idle, so the attempt-phase clause is vacuous *)
+    destruct (l_phase s) eqn:Ph; try (assert (X : false = true) by (apply Q; discriminate); discriminate);
+      match goal with H : _ \/ _ |- _ => destruct H; discriminate end.
+  - (* retry loop head *)
+    destruct (l_recovering s) eqn:R; [|inversion E; subst; split; rewrite ?R; assumption].
+    destruct (l_phase s) eqn:Ph; try (inversion E; subst; split; rewrite ?R, ?Ph; assumption).
+    destruct (l_closed s) eqn:Cl.
+    + inversion E; subst. split; cov_fin.
+    + destruct ((0 <? l_max s) && (l_max s <=? l_count s)).
+      * destruct (do_close s) as [s1| | |] eqn:D; cbn [bind] in E; try discriminate. inversion E; subst.
+        pose proof (do_close_closed s s1 D I0) as Cl1. split; cov_fin.
+      * inversion E; subst; clear E. split; cov_fin.
+  - (* dial done *)
+    destruct (l_phase s) eqn:Ph; try (inversion E; subst; split; rewrite ?Ph; assumption).
+    destruct ok; cbn [negb] in E.
+    + destruct (l_closed s) eqn:Cl; inversion E; subst; clear E; split; cov_fin.
+      all: try apply none_open_snoc.
+      all: try (match goal with H : forallb closedb (_ ++ _) = true |- _ => rewrite none_open_snoc in H; discriminate end).
+    + inversion E; subst; clear E. split; cov_fin.
+  - (* auth done *)
+    destruct (l_phase s) eqn:Ph; try (inversion E; subst; split; rewrite ?Ph; assumption).
+    destruct ok; cbn [negb] in E.
+    + destruct (l_closed s) eqn:Cl; inversion E; subst; clear E; split; cov_fin.
+      all: try (apply P; auto).
+    + inversion E; subst; clear E. split; cov_fin.
+  - (* finish *)
+    destruct (l_phase s) eqn:Ph; try (inversion E; subst; split; rewrite ?Ph; assumption).
+    destruct (l_pending s) eqn:Pe; destruct (l_closed s) eqn:Cl; cbn [andb negb] in E; inversion E; subst; clear E; split; cov_fin.
+    (* not pending, not closed: the new connection is still open, so nothing is uncovered *)
+    all: try (match goal with H : forallb closedb _ = true |- _ => rewrite P in H; [discriminate|now right|reflexivity|reflexivity] end).
+  - (* Do *)
+    destruct (rev (l_conns s)) as [|c r]; [discriminate|]. destruct (cn_open c); inversion E; subst; split; cov_fin.
+  - (* goroutine exit *)
+    inversion E; subst; clear E. split; cbn; unfold none_open in *; cbn; rewrite ?exit_g_closed; auto.
+Qed.
+
+Theorem lrun_cov max acts s : lrun (l0 max) acts = Ok s -> LCov s.
+Proof.
+  assert (G : forall acts s0 s1, LInv s0 -> LCov s0 -> lrun s0 acts = Ok s1 -> LCov s1).
+  { induction acts0 as [|a r IH]; intros s0 s1 I Cv E; cbn [lrun] in E; [inversion E; subst; exact Cv|].
+    destruct (lstep s0 a) as [s2| | |] eqn:E2; cbn [bind] in E; try discriminate.
+    eapply IH; [apply (proj2 (linv_step s0 a I)); exact E2|eapply lcov_step; eauto|exact E]. }
+  intros E. eapply G; [apply linv_init|apply lcov_init|exact E].
+Qed.
+
+(* every loss is covered: in every reachable state of a client that is not closed, either a connection is open or a
+   recovery is running *)
+Theorem loss_is_covered max acts s : lrun (l0 max) acts = Ok s ->
+  l_closed s = false -> none_open s = true -> l_recovering s = true.
+Proof. intros E. exact (lc_cover s (lrun_cov max acts s E)). Qed.
+
+(* and a running recovery always has a next step: at the loop head it dials again (or gives up by closing) *)
+Theorem recovering_idle_progresses s : LInv s -> l_recovering s = true -> l_phase s = PhIdle -> l_closed s = false ->
+  exists s', lstep s LRetryBegin = Ok s' /\ (l_phase s' = PhDialing \/ l_closed s' = true).
+Proof.
+  intros I R Ph Cl. cbn [lstep]. rewrite R, Ph, Cl. destruct ((0 <? l_max s) && (l_max s <=? l_count s)).
+  - pose proof (li_once s I) as O. rewrite Cl in O. unfold do_close, close_chan. rewrite O, Cl. cbn [bind].
+    eexists; split; [reflexivity|]. right. reflexivity.
+  - eexists; split; [reflexivity|]. left. reflexivity.
 Qed.
